@@ -203,6 +203,20 @@ CLAIMED['C13'] = dict(
     technique="Lean 4 theorems on the write/rename step + exhaustive format assignments + watermark boundary runs",
     ref='§7 C13')
 
+CLAIMED['C11'] = dict(
+    text=(UPD + "Plus a model of the time handling in gemato/cli.py (the mtime bound derived from the TIMESTAMP; the TIMESTAMP written = "
+          "the clock read before the scan, at one-second resolution). Theorems: a file whose mtime is newer than the previous TIMESTAMP "
+          "is never skipped (C11_newer_files_rehashed); a size change is never skipped (C11_size_change_always_rehashed); a skip can "
+          "only happen under all of {bound given, mtime <= bound, same size, IGNORE excluded} (C11_skip_only_if) and yields the same "
+          "entry as hashing when the entry was exact (C11_skip_equals_full_when_exact); the bound does not depend on the local UTC "
+          "offset (C11_timezone_independent); the written TIMESTAMP is never later than the scan start "
+          "(C11_timestamp_not_after_start), hence a file modified while an update runs is re-hashed by the next incremental update "
+          "(C11_changed_during_run_picked_up). PARTIAL: 'incremental == full over a whole history' is composed from these per-file "
+          "theorems by the two-replica harness, not proved as one theorem; sub-second mtimes and float rounding of st_mtime are not modelled."),
+    note=TB + "The clock of gemato.cli is replaced by a controlled one in the harness; TZ is set with time.tzset().",
+    technique="Lean 4 theorems on the mtime skip and the TIMESTAMP arithmetic + source bridge of cli.py + two-replica (incremental vs full) differential histories under five time zones + model correspondence",
+    ref='§7 C11')
+
 PENDING = ['C01', 'C02', 'C03', 'C04', 'C05', 'C06', 'C07', 'C08', 'C10', 'C11', 'C12', 'C13', 'C14', 'C15', 'C16',
            'C17', 'C18', 'C19', 'C20']
 
